@@ -376,6 +376,8 @@ def run(chk, args):
     tail = "setoffset:into-unflushed-tail-with-flushed-unsynced-buffered:"
     chk.cov["setoffset_into_tail_with_flushed_held"] = {"directed": ctr.get(tail + "tlc-directed", 0), "simulated": ctr.get(tail + "tlc-simulate", 0),
                                                     "simulated_from_seeded_prefix": ctr.get(tail + "tlc-simulate-seeded", 0)}
+    if psims and not ctr.get(tail + "tlc-simulate-seeded"):
+        raise MachineryFault("no seeded simulation took SetOffset into the unflushed tail while flushed-unsynced bytes were buffered (vacuous)")
     if not ctr.get(tail + "tlc-directed"):
         raise MachineryFault("no directed behaviour drove SetOffset into the unflushed tail while flushed-unsynced bytes were buffered (vacuous)")
 
